@@ -12,7 +12,10 @@
     4. clamped         interp1_clamp_left/right, interp1_clamp, interp2_clamp, interp2_inside
     5. sign            interp1_sign, interp_sign_as_used, interp1_table_sign, interp2_table_sign
     6. constant table  interp1_const, interp2_const, param_const_table
-  The non-negativity of the io axis is essential: `knot_negative_axis_fails` (finding F11).
+    7. accepted tables  interp1_abs_axis, interp1_knot_abs (io axis increasing in magnitude),
+                        interp2_global_range (vi rows in any order, any signs)
+  The conditioning of the io axis is essential: `knot_negative_axis_fails` (the interpolator on an axis that
+  is increasing but not in magnitude; the constructors refuse such tables since the repair of finding F11).
 -/
 import SysLoss.Proofs.Interp
 
@@ -378,7 +381,40 @@ theorem param_const_table_2d {xs ys : List α} {f : List (List α)} (g : Grid xs
     (Param.tab2 xs ys f diag).interp x y = (Param.const |c|).interp x y :=
   interp2_const g diag c hcols hc x y
 
-/-! ### the conditioning is needed: a negative io axis (finding F11) -/
+/-! ### tables as the constructors accept them: io axis increasing in magnitude, vi rows in any order -/
+
+/-- only the magnitudes of the axis entries matter … -/
+theorem interp1_abs_axis (xs fs : List α) (x : α) : interp1 (xs.map nabs) fs x = interp1 xs fs x := by
+  have e : ∀ v : α, nabs (nabs v) = nabs v := by intro v; simp
+  unfold interp1
+  simp only [List.map_map, Function.comp_def, e]
+
+/-- … so every 1-D statement above holds for an axis that is increasing in magnitude (what `_check_interp`
+    demands since repair b59f1ff), e.g. knot exactness: -/
+theorem interp1_knot_abs {xs fs : List α} (h : Axis1 (xs.map nabs) fs) {j : Nat} (hj : j < xs.length) :
+    interp1 xs fs (xs.getD j 0) = |fs.getD j 0| := by
+  have := interp1_knot h (j := j) (by simpa using hj)
+  rw [interp1_abs_axis] at this
+  have e : (xs.map nabs).getD j 0 = |xs.getD j 0| := by
+    rw [getD_eq_getElem' _ _ (by simpa using hj), getD_eq_getElem' _ _ hj]; simp
+  rw [e] at this
+  rw [← this, ← interp1_sign_abs]
+where
+  interp1_sign_abs : ∀ {xs fs : List α} {x : α}, interp1 xs fs |x| = interp1 xs fs x := by
+    intro xs fs x; unfold interp1; simp only [nabs_eq_abs, abs_abs]
+
+/-- **3 / 4 for shuffled or negative vi rows**: a rectangular table with an io axis increasing in magnitude
+    and at least one cell never leaves the range of its tabulated magnitudes — for every query, inside or
+    outside, every diagonal choice, whatever the order and the signs of the vi rows. -/
+theorem interp2_global_range (xs ys : List α) (f : List (List α)) (diag : List (List Bool)) (lo hi : α)
+    (hxs : (xs.map nabs).Pairwise (· < ·)) (hx2 : 2 ≤ xs.length) (hy2 : 2 ≤ ys.length)
+    (hrows : f.length = ys.length) (hcols : ∀ row ∈ f, row.length = xs.length)
+    (hb : ∀ row ∈ f, ∀ v ∈ row, lo ≤ |v| ∧ |v| ≤ hi) (x y : α) :
+    lo ≤ interp2 xs ys f diag x y ∧ interp2 xs ys f diag x y ≤ hi :=
+  interp2_bounds xs ys f diag lo hi hxs hx2 hy2 hrows hcols hb x y
+
+/-! ### the conditioning is needed: an io axis that is not increasing in magnitude (former finding F11;
+    such tables are refused by the constructors since repair b59f1ff, see C11.table_io_not_increasing) -/
 
 /-- knot exactness for every strictly increasing io axis, *without* the non-negativity condition -/
 def knot_any_increasing_axis : Prop :=
@@ -480,6 +516,26 @@ example (diag : List (List Bool)) (x y : ℚ) :
   have g : Grid exIo exVi [[4/5, 4/5, 4/5], [4/5, 4/5, 4/5], [4/5, 4/5, 4/5]] :=
     { exGrid with rows := rfl }
   have := interp2_const g diag (4/5) (by simp [exIo]) (by simp) x y
+  simpa [abs_of_pos] using this
+
+/-- the docstring table with its rows given in another order and a negative vi entry -/
+example (diag : List (List Bool)) (x y : ℚ) :
+    (2/5 : ℚ) ≤ interp2 exIo [12, -5, 33/10] [[2/5, 3/5, 383/500], [1/2, 37/50, 83/100], [11/20, 39/50, 23/25]] diag x y
+      ∧ interp2 exIo [12, -5, 33/10] [[2/5, 3/5, 383/500], [1/2, 37/50, 83/100], [11/20, 39/50, 23/25]] diag x y ≤ 23/25 := by
+  apply interp2_global_range
+  · norm_num [exIo, nabs]
+  · simp [exIo]
+  · simp
+  · rfl
+  · intro row hr; simp at hr; rcases hr with rfl | rfl | rfl <;> simp [exIo]
+  · intro row hr v hv
+    simp at hr
+    rcases hr with rfl | rfl | rfl <;> simp at hv <;> rcases hv with rfl | rfl | rfl <;> norm_num [abs_of_pos]
+
+example : interp1 [-1, 2, 3] [5, 6, 7] (-1 : ℚ) = 5 := by
+  have h : Axis1 (([-1, 2, 3] : List ℚ).map nabs) [5, 6, 7] :=
+    ⟨by norm_num [nabs], by intro x hx; simp [nabs] at hx; rcases hx with rfl | rfl | rfl <;> norm_num, rfl⟩
+  have := interp1_knot_abs h (j := 0) (by simp)
   simpa [abs_of_pos] using this
 
 example : cellVal true (1:ℚ) 2 3 5 (1/4) (1/2) = 5/2 := by norm_num [cellVal]
